@@ -541,3 +541,24 @@ pub fn testrun_main(args: &[String]) {
     let _ = std::env::set_current_dir("/");
     let _ = std::fs::remove_dir_all(&dir);
 }
+
+/// `scanflags <file>`: for every case (a whole program) run the public feature scanners of the code generator and print
+/// `CASE <id> serde=<bool> tokio=<bool> axum=<bool>` (or `CASE <id> ERR ..` when the program does not parse).
+pub fn scanflags_main(args: &[String]) {
+    let text = std::fs::read_to_string(&args[0]).expect("readable case file");
+    for (id, _kind, src) in split_cases(&text) {
+        let r = std::panic::catch_unwind(|| {
+            let program = parse_src(&src)?;
+            let mut cg = incan::IrCodegen::new();
+            cg.scan_for_serde(&program);
+            cg.scan_for_async(&program);
+            cg.scan_for_web(&program);
+            Ok::<_, String>(format!("serde={} tokio={} axum={}", cg.needs_serde(), cg.needs_tokio(), cg.needs_axum()))
+        });
+        match r {
+            Ok(Ok(s)) => println!("CASE {id} {s}"),
+            Ok(Err(e)) => println!("CASE {id} ERR {}", e.replace('\n', " ")),
+            Err(_) => println!("CASE {id} ERR PANIC"),
+        }
+    }
+}
